@@ -11,8 +11,8 @@ CLAIMED = {
          "Held-on-N-histories exploration (burial depths 98..102 hit by construction).",
          "Over-retention is never judged; received HTLCs not required in the swept rule (weaker than the signer's, hence sound); compact block delivery only.",
          "C15"),
- "C20": ("randomised concurrency testing: proptest-generated programs of 2-3 threads with fixed-argument requests, thread schedules explored with shuttle (random and PCT schedulers, fixed seeds) on vls-core built with --cfg vls_verif; oracle = no deadlock/panic in any explored schedule and replies + final state equal to those of some sequential interleaving on a fresh world (linearizability witness search)",
-         "Exploration of sampled schedules (60 per program quick, 400 thorough), not enumeration; two genuine lock-order inversions were found and repaired by fix: commits.",
+ "C20": ("randomised concurrency testing: proptest-generated programs of 2-3 threads with fixed-argument requests (plain scenario, and a chain scenario with funded and confirmed channels, a stub, funding-transaction signing, setup_channel and blocks that hold a closing transaction), thread schedules explored with shuttle (random and PCT schedulers, fixed seeds) on vls-core built with --cfg vls_verif; oracle = no deadlock/panic in any explored schedule and replies + final state equal to those of some sequential interleaving on a fresh world (linearizability witness search)",
+         "Exploration of sampled schedules (60 per program quick, 400 thorough), not enumeration; four genuine lock-order inversions and one atomicity defect (the last one introduced by an earlier repair and found by the check) were repaired by fix: commits and are kept as regression replays.",
          "The hook swaps std::sync for shuttle::sync in vls-core's prelude; behaviour outside those primitives is not modelled.",
          "C20"),
  "C10": ("stateful property-based testing with a union request machine (commitments on both sides, payments, on-chain, allowlist, tracker blocks, channel lifecycle) biased to refusable requests, on a plain and on a cloud-staged store; oracle = full observation (all channels' enforcement state, node bookkeeping, tracker entry, store dump, pending mutations) is identical before and after every refused request",
@@ -59,9 +59,9 @@ CLAIMED = {
          "Held-on-N-cases exploration of both counterparty-commitment entry points against reference transactions.",
          "Trusted: LDK CommitmentTransaction/build_htlc_transaction builders fed directly from the generated setup, rust-bitcoin sighash, libsecp256k1.",
          "C04"),
- "C05": ("property-based testing with boundary-value and arithmetic-extreme generators; oracle = acceptance implies a reference predicate written from the property statement in 128-bit arithmetic",
+ "C05": ("property-based testing with boundary-value and arithmetic-extreme generators; oracle = acceptance implies a reference predicate written from the property statement in 128-bit arithmetic; a chain group drives funded channels through funding confirmation, burial, closes and reorgs (real regtest blocks through the node's tracker, on-chain validator) against a reference chain model; a refused setup must not leave a usable channel",
          "Held-on-N-cases exploration; the genuine defect found (implied fee rate truncated to 32 bits) was repaired by a fix: commit and kept as a regression replay.",
-         "Dust limit 330 sat and +2/kw rounding tolerance so that the oracle never demands more than the property; on-chain validator only in the unconfirmed state here.",
+         "Dust limit 330 sat and +2/kw rounding tolerance so that the oracle never demands more than the property; min_funding_depth is fixed at 1 by OnchainValidatorFactory.",
          "C05"),
  "C12": ("property-based testing of VelocityControl against an exact approvals ledger (window-sum oracle in u128), plus stateful generation on a real node and on VelocityApprover with restarts from the store",
          "Held-on-N-sequences exploration; two genuine defects (controls reset by restart, fee control not persisted) were repaired by fix: commits and kept as regression replays.",
